@@ -75,7 +75,13 @@ def write_replay(prop, idx, profile_name, profile, run, finding, poolres):
     shutil.copy(run["trace"], os.path.join(d, "trace.tlc.ndjson"))
     ln = finding[1]
     ctx = []
-    with open(run["merged"] if finding[2].endswith("[merged trace]") else run["trace"]) as f:
+    src = run["trace"]
+    if finding[2].endswith("[merged trace]"):
+        src = run["merged"]
+    elif "[twin trace" in finding[2]:
+        src = run.get("twin", {}).get("trace", run["trace"])
+        shutil.copy(src, os.path.join(d, "trace.twin.ndjson"))
+    with open(src) as f:
         for n, line in enumerate(f, 1):
             if ln - 12 <= n <= ln + 2:
                 ctx.append("%d: %s" % (n, line.rstrip()[:600]))
